@@ -140,12 +140,14 @@ func (r *ReaderStream) Reassembled(reassembly []tcpassembly.Reassembly) {
 		panic("ReaderStream not created via NewReaderStream")
 	}
 	r.reassembled <- reassembly
+	verifPoint(1)
 	<-r.done
 }
 
 // ReassemblyComplete implements tcpassembly.Stream's ReassemblyComplete function.
 func (r *ReaderStream) ReassemblyComplete() {
 	close(r.reassembled)
+	verifPoint(5)
 	close(r.done)
 }
 
@@ -182,6 +184,7 @@ func (r *ReaderStream) Read(p []byte) (int, error) {
 		} else {
 			r.done <- true
 		}
+		verifPoint(2)
 		if r.current, ok = <-r.reassembled; ok {
 			r.stripEmpty()
 		} else {
@@ -211,11 +214,13 @@ func (r *ReaderStream) Close() error {
 	if !r.first && !r.closed {
 		r.done <- true
 	}
+	verifPoint(3)
 	r.closed = true
 	for {
 		if _, ok := <-r.reassembled; !ok {
 			return nil
 		}
+		verifPoint(4)
 		r.done <- true
 	}
 }
